@@ -592,6 +592,6 @@ def run(ctx: Ctx) -> None:
     ctx.given("stats_table", tables, check_stats_table,
               quick=400, thorough=16 * 400)
     fuzz.run_target(ctx, "compact", quick_runs=50_000,
-                    thorough_runs=16 * 400_000)
+                    thorough_runs=16 * 150_000)
     fuzz.run_target(ctx, "plan", quick_runs=120_000,
-                    thorough_runs=16 * 1_000_000)
+                    thorough_runs=16 * 400_000)
